@@ -157,7 +157,7 @@ def lst(*names):
     return ["list", list(names)]
 
 
-def reachable(w, root=None):
+def reachable(w, root=None, with_installed_services=True):
     """Forward closure (by links and lists) of the system, in discovery order."""
     root = root or w["system"]
     seen = []
@@ -175,7 +175,7 @@ def reachable(w, root=None):
     go(root)
     # a service is attached to its server from the service's side: a service installed on a reachable server is part
     # of the model even when no reachable job uses it (it still occupies the server)
-    changed = True
+    changed = with_installed_services
     while changed:
         changed = False
         for n, o in w["objects"].items():
@@ -490,6 +490,7 @@ def W1():
     add(w, "j1", "Job", server=link("sv"), request_duration=Q(90, "minute"))
     add(w, "j2", "Job", server=link("sv"), data_transferred=Q(0.3, "megabyte"))
     add(w, "j3", "Job", server=link("sv_b"), data_stored=Q(33.3, "kilobyte"))
+    add(w, "j_idle", "Job", server=link("sv"), ram_needed=Q(70, "megabyte"))     # attached to a used server, used by no step
     add(w, "s1", "UsageJourneyStep", user_time_spent=Q(20, "minute"), jobs=lst("j1"))
     add(w, "s2", "UsageJourneyStep", user_time_spent=Q(70, "minute"), jobs=lst("j2", "j1"))
     add(w, "s3", "UsageJourneyStep", user_time_spent=Q(5, "minute"), jobs=lst("j3"))
@@ -551,6 +552,7 @@ def W3():
     add(w, "j2", "Job", server=link("sv"), data_stored=Q(-20, "kilobyte"), data_transferred=Q(0.3, "megabyte"))
     add(w, "j3", "Job", server=link("sv_b"), data_stored=Q(33.3, "kilobyte"), request_duration=Q(30, "minute"))
     add(w, "j4", "Job", server=link("sv_c"))
+    add(w, "j_idle", "Job", server=link("sv_b"), ram_needed=Q(70, "megabyte"))   # attached to a used server, used by no step
     add(w, "s1", "UsageJourneyStep", user_time_spent=Q(20, "minute"), jobs=lst("j1", "j2"))
     add(w, "s2", "UsageJourneyStep", user_time_spent=Q(61, "minute"), jobs=lst("j3"))
     add(w, "s3", "UsageJourneyStep", user_time_spent=Q(5, "minute"), jobs=lst("j4"))
